@@ -5,7 +5,8 @@ import json
 import os
 import sys
 
-sys.path.insert(0, '/repo')
+REPO = os.environ.get('VERIF_REPO', '/repo')
+sys.path.insert(0, REPO)
 
 
 def main():
@@ -17,7 +18,7 @@ def main():
     ign = [x for x in ign.split(',') if x]
     from gtwrap.pybind_wrapper import PybindWrapper
     from gtwrap.matlab_wrapper import MatlabWrapper
-    tpl = open('/repo/templates/pybind_wrapper.tpl.example').read()
+    tpl = open(REPO + '/templates/pybind_wrapper.tpl.example').read()
     res = {}
     try:
         w = PybindWrapper(module_name='mod', top_module_namespaces=top, use_boost_serialization=boost == '1',
